@@ -58,7 +58,8 @@ def native_failure(modname, gname, x, opts, today):
             try:
                 yy, mm, dd = int(v[rule[0][0]:rule[0][1]]), int(v[rule[1][0]:rule[1][1]]), int(v[rule[2][0]:rule[2][1]])
                 red = {'id': lambda x: x, 'mod20': lambda x: x % 20, 'mod50mod20': lambda x: (x % 50) % 20, 'mod40': lambda x: x % 40}
-                if d.year % 100 != yy or d.month != red[rule[3]](mm) or d.day != red[rule[4]](dd):
+                ymod = 10 ** (rule[0][1] - rule[0][0])
+                if d.year % ymod != yy or d.month != red[rule[3]](mm) or d.day != red[rule[4]](dd):
                     return 'get_birth_date(%r) = %s does not agree with the date digits of the number' % (v, d)
                 if rule[5] == 'pesel' and d.year - d.year % 100 != (1800 if mm // 20 == 4 else 1900 + 100 * (mm // 20)):
                     return 'get_birth_date(%r) = %s does not agree with the century marker in the month digits' % (v, d)
@@ -101,7 +102,8 @@ def checker_factory(modname):
                         mm = I.to_int(FixedStr(chars[rule[1][0]:rule[1][1]]))
                         dd = I.to_int(FixedStr(chars[rule[2][0]:rule[2][1]]))
                         red = {'id': lambda x: x, 'mod20': lambda x: x % 20, 'mod50mod20': lambda x: (x % 50) % 20, 'mod40': lambda x: x % 40}
-                        extra['the year digits'] = (r.y % 100, yy)
+                        ymod = 10 ** (rule[0][1] - rule[0][0])
+                        extra['the year digits'] = (r.y % ymod if ymod < 10000 else r.y, yy)
                         extra['the month digits'] = (r.m, red[rule[3]](mm))
                         extra['the day digits'] = (r.d, red[rule[4]](dd))
                         if rule[5] == 'pesel':
